@@ -146,6 +146,53 @@ let random_histories prim cfg seed count len out =
     output_string out (str_history prim cfg "A" (List.rev !ops)); output_char out '\n'
   done
 
+(* ---------- scale walks: many waiters at once ---------- *)
+(* Greedy walks that only use the machine interface: phase A prefers the operation after which
+   the wait queue is longest (fills the queue with up to [target] waiters), phase B prefers the
+   operation that wakes most (set / send / close / release / expire with a long queue), with
+   random choices mixed in.  Exhaustive exploration stops at 3-4 futures; a defect that needs
+   five waiters (a fixed-size batch of wakers, a capped loop) or 256 (a narrow counter) only
+   shows here. *)
+let scale_histories prim cfg seed count len target out =
+  let m = machine prim in
+  Random.init seed;
+  let pick l = List.nth l (Random.int (List.length l)) in
+  let sample n l =
+    let a = Array.of_list l in
+    let k = Array.length a in
+    if k <= n then l else List.init n (fun _ -> a.(Random.int k)) in
+  let qlen (ob : Base.obs) = List.length ob.Base.o_queue and wlen (ob : Base.obs) = List.length ob.Base.o_wake in
+  for _ = 1 to count do
+    let s = ref (m.Base.m_init cfg) and ops = ref [] and filled = ref false in
+    (try for i = 1 to len do
+      let en = m.Base.m_enabled !s in
+      if en = [] then raise Exit;
+      let fill = not !filled && i < len * 2 / 3 in
+      let o =
+        if Random.int 8 = 0 && not fill then pick en
+        else if fill then begin
+          (* longest queue after this operation, then longest queue reachable with one more
+             operation (create, then poll), never an operation that wakes somebody *)
+          let scored = List.map (fun o ->
+            let (s', ob) = m.Base.m_step !s o in
+            let look = List.fold_left (fun a o2 -> let (_, ob2) = m.Base.m_step s' o2 in
+              if wlen ob2 = 0 then max a (qlen ob2) else a) 0 (sample 16 (m.Base.m_enabled s')) in
+            (o, (if wlen ob > 0 then -1 else qlen ob * 1000 + look))) (sample 24 en) in
+          let best = List.fold_left (fun a (_, q) -> max a q) min_int scored in
+          if best / 1000 >= target then filled := true;
+          pick (List.filter_map (fun (o, q) -> if q = best then Some o else None) scored)
+        end else begin
+          let scored = List.map (fun o -> let (_, ob) = m.Base.m_step !s o in (o, wlen ob)) en in
+          let best = List.fold_left (fun a (_, w) -> max a w) 0 scored in
+          if best = 0 && Random.int 3 = 0 then filled := false;
+          pick (List.filter_map (fun (o, w) -> if w = best then Some o else None) scored)
+        end in
+      let (s', _) = m.Base.m_step !s o in
+      s := s'; ops := o :: !ops
+    done with Exit -> ());
+    output_string out (str_history prim cfg "A" (List.rev !ops)); output_char out '\n'
+  done
+
 (* ---------- continuations of given histories (divergence follow-up) ---------- *)
 let extend depth hist_file out =
   let hc = open_in hist_file in
@@ -160,6 +207,33 @@ let extend depth hist_file out =
           output_string out (str_history h.prim h.cfg "A" (h.ops @ List.rev (o :: rpath))); output_char out '\n';
           go s' (o :: rpath) (d - 1)) (m.Base.m_enabled s) in
     go s0 [] depth
+  done with End_of_file -> ())
+
+(* continuation that lets every future consume its wake-up: poll every pollable future (one
+   waker variant each), in ascending and in descending order, two rounds *)
+let extend_drain hist_file out =
+  let hc = open_in hist_file in
+  (try while true do
+    let h = parse_history (input_line hc) in
+    let m = machine h.prim in
+    let po = poll_ops h.prim in
+    let s0 = List.fold_left (fun s o -> fst (m.Base.m_step s o)) (m.Base.m_init h.cfg) h.ops in
+    List.iter (fun rev ->
+      let s = ref s0 and acc = ref [] in
+      for _ = 1 to 2 do
+        let polls = List.filter (fun o -> match o with c :: _ -> List.mem_assoc (int_of_n c) po | [] -> false) (m.Base.m_enabled !s) in
+        (* one variant per (code, future) *)
+        let seen = Hashtbl.create 16 in
+        let polls = List.filter (fun o -> match o with c :: f :: _ ->
+          let k = (int_of_n c, int_of_n f) in if Hashtbl.mem seen k then false else (Hashtbl.add seen k (); true) | _ -> false) polls in
+        let polls = if rev then List.rev polls else polls in
+        List.iter (fun o ->
+          (* the future may have completed meanwhile: only polls still enabled *)
+          if List.mem o (m.Base.m_enabled !s) then begin
+            let (s', _) = m.Base.m_step !s o in s := s'; acc := o :: !acc end) polls
+      done;
+      if !acc <> [] then begin
+        output_string out (str_history h.prim h.cfg "A" (h.ops @ List.rev !acc)); output_char out '\n' end) [false; true]
   done with End_of_file -> ())
 
 (* ---------- comparison ---------- *)
@@ -410,12 +484,15 @@ let () =
   | _ :: "explore-sw" :: prim :: cfg :: max :: _ -> explore ~shared:true prim (nlist cfg) (int_of_string max) stdout
   | _ :: "explore-sw-full" :: prim :: cfg :: max :: _ -> explore ~mode:"A" ~shared:true prim (nlist cfg) (int_of_string max) stdout
   | _ :: "explore-full" :: prim :: cfg :: max :: _ -> explore ~mode:"A" prim (nlist cfg) (int_of_string max) stdout
+  | _ :: "scale" :: prim :: cfg :: seed :: count :: len :: target :: _ ->
+      scale_histories prim (nlist cfg) (int_of_string seed) (int_of_string count) (int_of_string len) (int_of_string target) stdout
   | _ :: "random" :: prim :: cfg :: seed :: count :: len :: _ ->
       random_histories prim (nlist cfg) (int_of_string seed) (int_of_string count) (int_of_string len) stdout
   | _ :: "compare" :: h :: o :: k :: i :: _ -> compare_files ~shards:(int_of_string k) ~shard:(int_of_string i) h o
   | _ :: "compare" :: h :: o :: _ -> compare_files h o
   | _ :: "print" :: h :: _ -> print_model h
   | _ :: "extend" :: d :: h :: _ -> extend (int_of_string d) h stdout
+  | _ :: "extend-drain" :: h :: _ -> extend_drain h stdout
   | _ :: "monitor" :: which :: h :: o :: _ -> monitor_files (n_of_string which) h o false
   | _ :: "monitor-model" :: which :: h :: _ -> monitor_files (n_of_string which) h "" true
   | _ -> prerr_endline "usage: modelrun explore|random|compare|print ..."; exit 2
